@@ -461,12 +461,12 @@ class Explorer(object):
                 defs_ = [st for st in mod_.body if isinstance(st, ast.Assign) and len(st.targets) == 1 and isinstance(st.targets[0], ast.Name) and st.targets[0].id == e.id]
                 def plain_(x):
                     # names a module-level table may mention: container constructors, module functions, module constants
-                    return x.id in ('Map', 'Set', 'dict', 'set', 'list', 'tuple', 'None', 'True', 'False', 'null', 'undefined', 'ast', 're') or x.id in self.port.module_consts(self.modname) \
+                    return x.id in ('Map', 'Set', 'dict', 'set', 'list', 'tuple', 'None', 'True', 'False', 'null', 'undefined', 'ast', 're', '__regex__') or x.id in self.port.module_consts(self.modname) \
                         or isinstance(self.port.func(self.modname, x.id, required=False), ast.FunctionDef)
                 lam_params_ = {a_.arg for l_ in ast.walk(defs_[0].value) if isinstance(l_, ast.Lambda) for a_ in l_.args.args} if len(defs_) == 1 else set()
                 in_lambda_ = {id(x) for l_ in ast.walk(defs_[0].value) if isinstance(l_, ast.Lambda) for x in ast.walk(l_)} if len(defs_) == 1 else set()
                 if len(defs_) == 1 and isinstance(defs_[0].value, (ast.Dict, ast.List, ast.Tuple, ast.Set, ast.Call, ast.Constant)) and all(plain_(x) or id(x) in in_lambda_ or x.id in ('re',) for x in ast.walk(defs_[0].value) if isinstance(x, ast.Name)) \
-                        and not any(isinstance(x, ast.Call) and not (isinstance(x.func, ast.Name) and x.func.id in ('Map', 'Set', 'dict', 'set', 'list', 'tuple', 'frozenset')) for x in ast.walk(defs_[0].value)
+                        and not any(isinstance(x, ast.Call) and not (isinstance(x.func, ast.Name) and x.func.id in ('Map', 'Set', 'dict', 'set', 'list', 'tuple', 'frozenset', '__regex__')) for x in ast.walk(defs_[0].value)
                                     if not any(x in list(ast.walk(l_)) for l_ in ast.walk(defs_[0].value) if isinstance(l_, ast.Lambda))):
                     return self.expr(defs_[0].value, {})
                 if len(defs_) == 1 and isinstance(defs_[0].value, (ast.IfExp, ast.Name, ast.BoolOp, ast.Compare, ast.BinOp)) and not any(isinstance(x, (ast.Call, ast.Lambda)) for x in ast.walk(defs_[0].value)) \
